@@ -161,3 +161,24 @@ func VH_C06_TransportAbandoned() {
 	}
 	vhReach("c06-transport-abandoned")
 }
+
+// A read deadline expires in the middle of a response body (the peer stalls, the rest arrives later): the call fails
+// and the connection is closed - the late bytes and whatever follows them are never taken for the next call's
+// response.
+func VH_C06_StalledBody() {
+	mine, next := vhInt64("offset_of_the_stalled_response"), vhInt64("offset_of_the_next_response")
+	f1 := vhListOffsetsFrame(1, "t", 0, 0, -1, mine)
+	f2 := vhListOffsetsFrame(2, "t", 0, 0, -1, next)
+	k := 1 + vhChoose("late_bytes", len(f1)-9) // the header (8 bytes) has arrived, at least one body byte is late
+	fc := &vhFakeConn{data: append(append([]byte{}, f1...), f2...), stallAt: len(f1) - k}
+	c := NewConnWith(fc, ConnConfig{Topic: "t", Partition: 0, ClientID: "vh"})
+	_, err := c.ReadLastOffset()
+	vhAssert(err != nil, "stalled-response-fails-the-call")
+	vhAssert(fc.closed, "connection-closed-after-a-response-was-abandoned-mid-body")
+	got, err2 := c.ReadLastOffset()
+	vhAssert(err2 != nil, "next-call-on-the-abandoned-connection-fails")
+	if err2 == nil {
+		vhAssert(got == next, "next-call-never-gets-another-calls-bytes")
+	}
+	vhReach("c06-stalled-body")
+}
